@@ -82,7 +82,7 @@ theorem no_stack_one_line (σ : Store) (h : TL.Handler) (r : Record)
     error / propagates the sink's panic according to what the sink's `Write` did -/
 theorem one_write_per_record (sk : SinkSt) (sink : Nat) (line : Bytes) (hb : sk.buf = none) :
     TL.deliver sk sink line =
-      (sk, [line], match sk.mode with | .ok => Ret.nil | .fail => Ret.err sink | .panic => Ret.panic sink) := by
+      (sk, [line], match sk.mode with | .ok => Ret.nil | .fail k => Ret.err sink k | .panic => Ret.panic sink) := by
   unfold TL.deliver
   rw [hb]
   simp only [handleSync]
